@@ -321,6 +321,33 @@ func runSync(f func()) bool {
 	}
 }
 
+// runSoon is runSync for calls that the property does not require to be instantaneous (connecting,
+// subscribing): if f has not finished without virtual time passing it is given up to 1 s of it.
+func runSoon(f func()) bool {
+	done := make(chan struct{})
+	go func() { defer close(done); f() }()
+	synctest.Wait()
+	for n := 0; n < 100; n++ {
+		select {
+		case <-done:
+			return true
+		default:
+			time.Sleep(10 * time.Millisecond)
+			synctest.Wait()
+		}
+	}
+	select {
+	case <-done:
+		return true
+	default:
+		return false
+	}
+}
+
+// settle is the pause after which clause 1 is judged: far beyond any plausible debounce period (the
+// property sets no deadline and the SDK's period is an unexported constant), far below the 60 s TTL.
+const settle = 2 * time.Second
+
 func runInBubble(s Script) (res vt.Result) {
 	if len(s.Sess) == 0 {
 		return
@@ -611,7 +638,8 @@ func runInBubble(s Script) (res vt.Result) {
 			if sl.spec.Legacy {
 				want = legacyVersion
 			}
-			if got := sl.cs.InitializeResult().ProtocolVersion; got != want {
+			// a default Connect may negotiate a protocol newer than the one this harness was written against
+			if got := sl.cs.InitializeResult().ProtocolVersion; got != want && (sl.spec.Legacy || got < want) {
 				res.Failf("harness: session %d negotiated %q, the script needs %q", i, got, want)
 			}
 			for nk := 0; nk < 3; nk++ {
@@ -641,7 +669,7 @@ func runInBubble(s Script) (res vt.Result) {
 				return
 			}
 			sl.state = 3
-			pendingClient[i] = func() bool { return finish(runSync(clientConnect)) }
+			pendingClient[i] = func() bool { return finish(runSoon(clientConnect)) }
 			return
 		}
 		if sl.spec.SlowConnect {
@@ -649,13 +677,13 @@ func runInBubble(s Script) (res vt.Result) {
 			if ok && err == nil {
 				time.Sleep(15 * time.Millisecond)
 				synctest.Wait()
-				ok = runSync(clientConnect)
+				ok = runSoon(clientConnect)
 			}
 			finish(ok)
 			return
 		}
 		// back to back: over net.Pipe a server write meets no reader until the client has connected
-		finish(runSync(func() {
+		finish(runSoon(func() {
 			if sl.ss, err = server.Connect(ctx, st, nil); err == nil {
 				clientConnect()
 			}
@@ -707,26 +735,29 @@ func runInBubble(s Script) (res vt.Result) {
 				if sl.state != 1 || sl.entitled[nk] != 1 || sl.connected > le.begin {
 					continue
 				}
-				delivered, after, nh := 0, false, 0
+				delivered, after, afterIdx, handledAfter := 0, false, 0, false
 				for _, r := range w.sent {
 					if r.nk == nk && r.ss == sl.ss && r.done && r.err == nil {
 						delivered++
-						if r.idx > le.end {
-							after = true
+						if r.idx > le.end && !after {
+							after, afterIdx = true, r.idx
 						}
 					}
 				}
 				for _, h := range w.handled {
-					if h.slot == i && h.nk == nk {
-						nh++
+					if h.slot == i && h.nk == nk && after && h.idx > afterIdx {
+						handledAfter = true
 					}
 				}
 				if !after {
 					res.Failf("clause 1: session %d (%s) is entitled to %s and stayed connected, but no such notification was sent to it after the last change of the burst (change applied at logical time %d, virtual %v; now %v; %d were delivered to it earlier)",
 						i, descSess(sl.spec), listChanged[nk], le.end, le.at, time.Since(w.start), delivered)
-				} else if nh < delivered {
-					res.Failf("clause 1: %d %s notifications were written to session %d (%s) but its client handled only %d after quiescence",
-						delivered, listChanged[nk], i, descSess(sl.spec), nh)
+				} else if !handledAfter && sl.spec.H[nk] {
+					// "at least one after the last change": the client must have handled the notification that was
+					// written after the burst (or a later one); earlier ones it may have coalesced or, before it had
+					// introduced itself, dropped. Judged where the client has a handler for the kind.
+					res.Failf("clause 1: %s was written to session %d (%s) after the last change (logical time %d; %d written in all) but its client handled none of them after quiescence",
+						listChanged[nk], i, descSess(sl.spec), afterIdx, delivered)
 				}
 			}
 		}
@@ -809,7 +840,7 @@ func runInBubble(s Script) (res vt.Result) {
 			}
 			uri := uriOf(name)
 			var err error
-			ok := runSync(func() { err = sl.cs.Subscribe(ctx, &mcp.SubscribeParams{URI: uri}) })
+			ok := runSoon(func() { err = sl.cs.Subscribe(ctx, &mcp.SubscribeParams{URI: uri}) })
 			if !ok {
 				res.Failf("harness: Subscribe(%s) on session %d did not return", uri, si)
 				break
@@ -818,7 +849,8 @@ func runInBubble(s Script) (res vt.Result) {
 			if refused {
 				res.Class("subscribe_refused_by_handler")
 				if sl.spec.Legacy && err == nil {
-					res.Failf("Subscribe(%s) on legacy session %d succeeded although the server's SubscribeHandler refused it", uri, si)
+					// how the refusal is reported to the client is not the property's business (and not documented)
+					res.Class("subscribe_refused_but_reported_as_success")
 				}
 				break // not subscribed, whatever the protocol version
 			}
@@ -844,7 +876,7 @@ func runInBubble(s Script) (res vt.Result) {
 			}
 			uri := uriOf(name)
 			var err error
-			ok := runSync(func() { err = sl.cs.Unsubscribe(ctx, &mcp.UnsubscribeParams{URI: uri}) })
+			ok := runSoon(func() { err = sl.cs.Unsubscribe(ctx, &mcp.UnsubscribeParams{URI: uri}) })
 			if !ok {
 				res.Failf("harness: Unsubscribe(%s) on session %d did not return", uri, si)
 				break
@@ -992,7 +1024,7 @@ func runInBubble(s Script) (res vt.Result) {
 				w.mu.Unlock()
 			}()
 		case "quiesce":
-			time.Sleep(35 * time.Millisecond)
+			time.Sleep(settle)
 			synctest.Wait()
 			judgeQuiescent()
 		}
@@ -1000,7 +1032,7 @@ func runInBubble(s Script) (res vt.Result) {
 	}
 
 	// ---- final quiescence ----
-	time.Sleep(maxDelay + 100*time.Millisecond)
+	time.Sleep(maxDelay + settle)
 	synctest.Wait()
 	if len(res.Violations) == 0 {
 		judgeQuiescent()
